@@ -458,9 +458,8 @@ func frameClass(l string, M, W mask, fold, fgot, fsrc map[string]string) string 
 		relM = "M-nil"
 	default:
 		for _, p := range M.paths {
-			if covers(p, lp) {
+			if covers(p, lp) && len(p) > len(shared) { // the deepest update path above the leaf
 				relM, shared = "under-M-path", p
-				break
 			}
 		}
 		if shared == "" {
